@@ -166,3 +166,7 @@ class PyRunner:
                         prev = c
         close()
         return n
+
+
+for _cfg in PROPS_PY.values():
+    _cfg["runner"] = PyRunner
